@@ -53,6 +53,11 @@ type MemFile struct {
 	// EagerEOF makes ReadAt report io.EOF together with a full read that ends exactly at the end
 	// of the file, which the io.ReaderAt contract allows.
 	EagerEOF bool
+	// TruncateFailsAfterFault: a Truncate that follows an injected write fault fails too (the same outage);
+	// the count says how many Truncate calls fail per fired fault.
+	TruncateFailsAfterFault int
+	truncPending            int
+	TruncFaulted            int // number of Truncate calls that were failed
 }
 
 func New(initial []byte) *MemFile {
@@ -158,6 +163,7 @@ func (m *MemFile) write(kind Kind, p []byte, off int64) (int, error) {
 		n = keep
 		err = ErrInjected
 		m.Faulted++
+		m.truncPending = m.TruncateFailsAfterFault
 	}
 	if n > 0 || err == nil {
 		m.data = applyWrite(m.data, off, p[:n])
@@ -182,6 +188,11 @@ func (m *MemFile) Write(p []byte) (int, error) { return m.write(KWrite, p, 0) }
 func (m *MemFile) Truncate(size int64) error {
 	m.mu.Lock()
 	defer m.mu.Unlock()
+	if m.truncPending > 0 {
+		m.truncPending--
+		m.TruncFaulted++
+		return ErrInjected
+	}
 	m.data = applyTruncate(m.data, size)
 	if !m.NoLog {
 		m.events = append(m.events, Event{Seq: len(m.events), Kind: KTruncate, Size: size})
